@@ -16,14 +16,33 @@ class ToGFA1:
       segment_names.append(str(oline))
     a.append(",".join(segment_names))
     overlaps = []
-    for oline in self.captured_edges:
-      overlap = oline.line.overlap
-      if oline.orient == "-":
-        # the edge is traversed backwards: the path uses the complement link
-        overlap = overlap.complement()
-      gfapy.Field._validate_gfa_field(overlap, "alignment_gfa1")
-      overlaps.append(str(overlap))
+    cp = self.captured_path
+    for i in range(1, len(cp), 2):
+      overlaps.append(str(self._gfa1_overlap(cp[i-1], cp[i], cp[i+1])))
     a.append(",".join(overlaps) if overlaps else "*")
     for tn in self.tagnames:
       a.append(self.field_to_s(tn, tag=True))
     return a
+
+  def _gfa1_overlap(self, os1, oedge, os2):
+    """Overlap of the GFA1 link used when going from os1 to os2 through
+    the edge: the link the edge is converted to, or its complement."""
+    edge = oedge.line
+    if not edge.is_dovetail():
+      raise gfapy.ValueError(
+        "Conversion to GFA1 failed\n"+
+        "The path goes through an edge which is not a dovetail overlap\t"+
+        "Line: {}\tEdge: {}".format(self, edge))
+    from_s = gfapy.OrientedLine(edge.from_segment, edge.from_orient)
+    to_s = gfapy.OrientedLine(edge.to_segment, edge.to_orient)
+    if os1 == from_s and os2 == to_s:
+      overlap = edge.overlap
+    elif os1 == to_s.inverted() and os2 == from_s.inverted():
+      overlap = edge.overlap.complement()
+    else:
+      raise gfapy.ValueError(
+        "Conversion to GFA1 failed\n"+
+        "The path does not follow the direction of the overlap\t"+
+        "Line: {}\tEdge: {}".format(self, edge))
+    gfapy.Field._validate_gfa_field(overlap, "alignment_gfa1")
+    return overlap
